@@ -115,26 +115,32 @@ def scn_coalescent(model, T, scheme, hbatch, tbatch, grid=None):
         with symbolic_factories(co, enabled=mk.symbolic):
             nh, h = _heights(mk, T, hbatch, tips)
             _require_genealogy(mk, tips, h, hbatch, T, grid)
-            out_batch = hbatch if len(hbatch) >= len(tbatch) else tbatch
+            # sample dimensions follow torch's broadcasting (a dimension of size one stands for every sample)
+            out_batch = tuple(torch.broadcast_shapes(hbatch, tbatch))
+
+            def _ix(b, shape):
+                sub = b[len(b) - len(shape):] if shape else ()
+                return tuple(0 if shape[k_] == 1 else sub[k_] for k_ in range(len(shape)))
+            tb_ = lambda b: _ix(b, tbatch)
             if model == "constant":
                 theta = mk.real("theta", tbatch + (1,), lo=0)
                 dist = co.ConstantCoalescent(theta)
-                mkdemo = lambda b: kingman.Constant(el(theta, b[:len(tbatch)] + (0,)))
+                mkdemo = lambda b: kingman.Constant(el(theta, tb_(b) + (0,)))
             elif model == "exponential":
                 theta = mk.real("theta", tbatch + (1,), lo=0)
                 g = mk.real("growth", tbatch + (1,))
                 mk.require(el(g, tuple(0 for _ in tbatch) + (0,)) != 0) if mk.symbolic else None
                 dist = co.ExponentialCoalescent(theta, g)
-                mkdemo = lambda b: kingman.Exponential(el(theta, b[:len(tbatch)] + (0,)), el(g, b[:len(tbatch)] + (0,)))
+                mkdemo = lambda b: kingman.Exponential(el(theta, tb_(b) + (0,)), el(g, tb_(b) + (0,)))
             elif model == "skyride":
                 theta = mk.real("theta", tbatch + (T - 1,), lo=0)
                 dist = co.PiecewiseConstantCoalescent(theta)
-                mkdemo = lambda b: kingman.Skyride([el(theta, b[:len(tbatch)] + (i,)) for i in range(T - 1)])
+                mkdemo = lambda b: kingman.Skyride([el(theta, tb_(b) + (i,)) for i in range(T - 1)])
             elif model == "skygrid":
                 G = len(grid)
                 theta = mk.real("theta", tbatch + (G + 1,), lo=0)
                 dist = co.PiecewiseConstantCoalescentGrid(theta, torch.tensor(grid, dtype=torch.float64))
-                mkdemo = lambda b: kingman.GridConstant([el(theta, b[:len(tbatch)] + (i,)) for i in range(G + 1)], grid)
+                mkdemo = lambda b: kingman.GridConstant([el(theta, tb_(b) + (i,)) for i in range(G + 1)], grid)
             elif model == "linear_equal_knots":
                 # two neighbouring knots share one value (a flat piece inside the grid), the last knot differs
                 G = len(grid)
@@ -154,19 +160,19 @@ def scn_coalescent(model, T, scheme, hbatch, tbatch, grid=None):
                         for i in range(G):
                             mk.require(el(theta, b + (i,)) != el(theta, b + (i + 1,)))
                 dist = co.PiecewiseLinearCoalescentGrid(theta, torch.tensor(grid, dtype=torch.float64))
-                mkdemo = lambda b: kingman.GridLinear([el(theta, b[:len(tbatch)] + (i,)) for i in range(G + 1)], grid)
+                mkdemo = lambda b: kingman.GridLinear([el(theta, tb_(b) + (i,)) for i in range(G + 1)], grid)
             elif model == "piecewise_exponential":
                 G = len(grid)
                 theta = mk.real("theta", tbatch + (1,), lo=0)
                 g = mk.real("growth", tbatch + (G + 1,))
                 dist = co.PiecewiseExponentialCoalescentGrid(theta, g, torch.tensor(grid, dtype=torch.float64))
-                mkdemo = lambda b: kingman.GridExponential(el(theta, b[:len(tbatch)] + (0,)), [el(g, b[:len(tbatch)] + (i,)) for i in range(G + 1)], grid)
+                mkdemo = lambda b: kingman.GridExponential(el(theta, tb_(b) + (0,)), [el(g, tb_(b) + (i,)) for i in range(G + 1)], grid)
             else:
                 raise ValueError(model)
             res = dist.log_prob(nh)
         spec = []
         for b in itertools.product(*[range(s) for s in out_batch]):
-            hb = b[len(out_batch) - len(hbatch):] if hbatch else ()
+            hb = _ix(b, hbatch)
             coal = [el(h, hb + (i,)) for i in range(T - 1)]
             spec.append(kingman.log_density(tips, coal, mkdemo(b)))
         cl = [("true", "result_shape", tuple(res.shape) == out_batch + (1,), "%s vs %s" % (tuple(res.shape), out_batch + (1,)))]
